@@ -86,7 +86,9 @@ def export_medit(mesh : RawMeshData, path):
 
         if hasattr(mesh, "edges") and not mesh.edges.empty():
             f.write("Edges\n")
-            if mesh.edges.has_attribute("hard_edges"):
+            if mesh.edges.has_attribute("hard_edges") and mesh.dimensionality>1:
+                # edges completed from faces are not written (they are rebuilt when loading), only the declared ones.
+                # When no face nor cell is written (e.g. they are ignored), all edges have to be, as in the obj export
                 f.write("{}\n".format(len(mesh.edges.get_attribute("hard_edges"))))
                 for e in mesh.edges.get_attribute("hard_edges"):
                     a,b = mesh.edges[e]
